@@ -358,3 +358,42 @@ class SettingsRoundTrip(E2Contract):
                 eq("verdict-at-changed-tolerance", out["v1"], S.abs(tr - 1) <= 1e-3, "the global tolerance is what the verdict uses when none is passed"),
                 eq("verdict-restored", out["v2"], out["v0"], "restoring the global tolerance restores the verdict"),
                 eq("tolerance-restored", out["restored"], True, "set_atol(old) restores get_atol()")]
+
+
+# ------------------------------------------------------------------ operand frames of the projections and of the estimator (re-checked under C13)
+
+from .C04_all import EqProjectionWithVar as _EqVar, IneqProjectionWithVar as _IneqVar, EqProjection as _Eq, IneqProjection as _Ineq  # noqa: E402
+from .C05_all import Dykstra as _Dykstra  # noqa: E402
+from .C11_e2 import LossMinimizationWiring as _Wiring  # noqa: E402
+
+
+class EqProjectionVarFrame(_EqVar):
+    """C04's contract of the variable-level equality projections, re-checked under C13 for its frame clauses (the argument vector is not written to)"""
+    prop = "C13"
+    name = "calc_proj_eq_constraint_with_var: operand frame"
+
+
+class IneqProjectionVarFrame(_IneqVar):
+    prop = "C13"
+    name = "calc_proj_ineq_constraint_with_var: operand frame"
+
+
+class EqProjectionFrame(_Eq):
+    prop = "C13"
+    name = "calc_proj_eq_constraint: operand frame"
+
+
+class IneqProjectionFrame(_Ineq):
+    prop = "C13"
+    name = "calc_proj_ineq_constraint: operand frame"
+
+
+class PhysicalProjectionFrame(_Dykstra):
+    """C05's contract, re-checked under C13: the projected object keeps its arrays AND its configuration flags"""
+    prop = "C13"
+    name = "calc_proj_physical: operand frame"
+
+
+class EstimatorSequenceNoCarryOver(_Wiring):
+    prop = "C13"
+    name = "LossMinimizationEstimator: nothing carried between datasets / tomographies"
